@@ -109,8 +109,18 @@ def run(ctx):
         jobs.append({'op': 'neg', 'a': {'q': qtext(rng.choice([2.0, -4.5, 0.0]), d)}, 'b': {'n': 0}, 'dims': (d, None)})
         jobs.append({'op': 'abs', 'a': {'q': qtext(rng.choice([2.0, -4.5, 0.0]), d)}, 'b': {'n': 0}, 'dims': (d, None)})
         jobs.append({'op': 'pow', 'a': {'n': 2}, 'b': {'q': qtext(2.0, d)}, 'dims': (None, d)})
+    # unit strings that differ only by white space but not in meaning (metre second / millisecond ...), same number in front, one after the
+    # other in one process: what a string evaluates to must not depend on what was evaluated before
+    for ua, ub in (('ms', 'm s'), ('m s', 'ms'), ('min', 'm in'), ('m in', 'min'), ('mmol', 'm mol'), ('m mol', 'mmol'), ('mm', 'm m'), ('m m', 'mm'),
+                   ('mK', 'm K'), ('m K', 'mK')):
+        for op in BINOPS:
+            jobs.append({'op': op, 'a': {'q': '2.0 ' + ua}, 'b': {'q': '2.0 ' + ub}, 'dims': (ua, ub)})
     # arrays (oracle only)
     arr_jobs = []
+    for d in DIMS[:9]:
+        for op in ('eq', 'ne', 'lt', 'gt'):
+            arr_jobs.append({'op': op, 'a': {'arr': [1.0, -2.0, 0.5], 'u': d}, 'b': {'arr': [1.0, 3.0, 0.25], 'u': d}, 'dims': (d, d)})
+            arr_jobs.append({'op': op, 'a': {'arr': [1.0, 2.0, 0.5], 'u': d}, 'b': {'q': qtext(2.0, d)}, 'dims': (d, d)})
     for da, db in itertools.product(DIMS[:9], DIMS[:9]):
         op = rng.choice(['add', 'sub', 'lt', 'le', 'ge', 'eq', 'ne', 'mul', 'div'])
         arr_jobs.append({'op': op, 'a': {'arr': [1.0, -2.0, 0.5], 'u': da}, 'b': {'arr': [1.0, 3.0, 0.25], 'u': db}, 'dims': (da, db)})
@@ -205,6 +215,14 @@ def run(ctx):
                 ctx.violate(key, 'array %s between different dimensions did not raise UnitsError' % j['op'], j, 'UnitsError', r)
         elif da == db and j['op'] in ('add', 'sub') and ('exc' in r or r.get('kind') != 'arrqty'):
             ctx.violate(key, 'array %s of same-dimension quantities failed' % j['op'], j, 'array quantity', r)
+        elif da == db and j['op'] in ('eq', 'ne', 'lt', 'gt', 'le', 'ge'):
+            ys = j['b']['arr'] if 'arr' in j['b'] else [2.0] * 3
+            want = [bool(PY[j['op']](x, y)) for x, y in zip(j['a']['arr'], ys)]
+            if 'exc' in r or r.get('kind') != 'arr' or [bool(v) for v in r['v']] != want:
+                ctx.violate(key, 'array %s of same-dimension quantities is not the elementwise comparison of the magnitudes' % j['op'], j, want, r)
+        elif da != db and j['op'] in ('eq', 'ne') and 'arr' in j['b']:
+            if 'exc' in r or not all(bool(v) == (j['op'] == 'ne') for v in (r['v'] if isinstance(r.get('v'), list) else [r.get('v')])):
+                ctx.violate(key, 'array %s between different dimensions is not plainly %s' % (j['op'], j['op'] == 'ne'), j, j['op'] == 'ne', r)
     c10.recombination_oracle(ctx)
     # correspondence (scalars)
     rows = []
